@@ -403,6 +403,15 @@ impl TShim {
                 w.write_row(vec!["y"])?;
                 w.finish_error(ErrorKind::ER_NO, &b"late".to_vec())
             }
+            "colerr" => {
+                // an error after the cells of a row were written but before the row was ended
+                let cols = vec![vcol("a", ColumnType::MYSQL_TYPE_LONG, ColumnFlags::empty())];
+                let mut w = results.start(&cols)?;
+                w.write_col(1i32)?;
+                w.end_row()?;
+                w.write_col(7i32)?;
+                w.finish_error(ErrorKind::ER_NO, &b"mid".to_vec())
+            }
             "okerr" => {
                 let r = results.complete_one(1, 2)?;
                 r.error(ErrorKind::ER_NO, &b"after ok"[..])
@@ -682,6 +691,14 @@ fn w_c01_chunkings() {
         let r = converse(hs41(b"u", 0), &cmds, ch.clone(), false, None, None);
         assert!(r.result.is_ok() && r.log == base.log, "[C01.w.chunking] commands seen by the shim depend on read chunking {:?}: {:?} vs {:?}", ch, r.log.len(), base.log.len());
         assert!(r.out == base.out, "[C01.w.chunking] replies depend on read chunking {:?}", ch);
+    }
+    // a read that fails (here: Interrupted) at any point of the conversation, also in the middle of a command:
+    // whatever reached the shim must be a prefix of what was sent, byte for byte (and run_on must not report success)
+    for ch in [vec![3usize], vec![7, 1, 64]] {
+        for f in 0..60usize {
+            let r = converse_k(hs41(b"u", 0), &cmds, ch.clone(), false, Some((f, false)), None, io::ErrorKind::Interrupted);
+            assert!(r.log.len() <= base.log.len() && r.log[..] == base.log[..r.log.len()], "[C01.w.fault] after a failed read (operation {}, chunking {:?}) the shim saw commands the client never sent: {:?}", f, ch, r.log.last());
+        }
     }
     // one command of 17 MiB (two fragments), small and odd chunk sizes
     let big: Vec<u8> = (0..17 * 1024 * 1024).map(|k| b'a' + (k % 23) as u8).collect();
@@ -1032,6 +1049,14 @@ fn w_c10_registry() {
 #[test]
 fn w_c11_handshake() {
     let mut cases = 0;
+    // the 23 reserved bytes of a 4.1 response need not be zero (MariaDB clients put capabilities there)
+    {
+        let mut hs = hs41(b"maria", 0);
+        for k in 0..23 { hs[9 + k] = 0x07 + k as u8; }
+        let r = converse(hs, &[(vec![0x0e], 0), quit()], vec![], false, None, None);
+        assert!(r.result.is_ok() && r.log.get(0) == Some(&Ev::Auth(Some(b"maria".to_vec()))), "[C11.w.user] a handshake response with non-zero reserved bytes was not authenticated: {:?} {:?}", r.result, r.log.get(0));
+        cases += 1;
+    }
     for user in [&b"root"[..], b"", b"\xff\xfeadmin", b"a b", b"x"] {
         for layout in 0..2 {
             let hs = if layout == 0 { hs41(user, 0) } else { hs320(user) };
@@ -1118,6 +1143,27 @@ fn w_c13_errors() {
             Some(Resp::Err { code: 1002, msg, .. }) => assert!(msg.len() == n && msg.iter().enumerate().all(|(k, b)| *b == b'a' + (k % 26) as u8), "[C13.w.msg] a {}-byte error message arrived with {} bytes", n, msg.len()),
             _ => panic!("[C13.w.wire] no ERR packet for a {}-byte message", n),
         }
+    }
+    // an error after the cells of the last row were written but the row not ended, text and binary protocol
+    {
+        let (r, m) = one(b"colerr");
+        assert!(r.result.is_ok(), "[C13.w.rows] error after an un-ended row (text) failed: {:?}", r.result);
+        let mut i = 1;
+        let u = parse_response(&m, &mut i).unwrap_or_else(|e| panic!("[C13.w.rows] response with an error after an un-ended text row is not conformant: {}", e));
+        assert!(matches!(u.last(), Some(Resp::RsErr { rows, code: 1002, msg, .. }) if msg == b"mid" && rows.len() == 2), "[C13.w.rows] error after an un-ended text row did not arrive as two rows and an ERR packet: {:?}", u.last());
+        let r = converse(hs41(b"u", 0), &[(c_query(b"setexec=colerr"), 0), (c_prepare(b"p:1:0:0"), 0), (c_execute(1, &[], true), 0), (vec![0x0e], 0), quit()], vec![], false, None, None);
+        assert!(r.result.is_ok(), "[C13.w.rows] error after an un-ended row (binary) failed: {:?}", r.result);
+        let m = replies(&r);
+        let mut i = 3;
+        let u = parse_response(&m, &mut i).unwrap_or_else(|e| panic!("[C13.w.rows] response with an error after an un-ended binary row is not conformant: {}", e));
+        match u.last() {
+            Some(Resp::RsErr { rows, code: 1002, msg, .. }) if msg == b"mid" && rows.len() == 2 => {
+                for row in rows { assert!(bin_row(row, &[(3, false)]).is_ok(), "[C13.w.rows] a binary row before the error is malformed: {:?}", row); }
+            }
+            other => panic!("[C13.w.rows] error after an un-ended binary row did not arrive as two rows and an ERR packet: {:?}", other),
+        }
+        assert!(i + 1 == m.len() && parse_ok(&m[i].2).is_some(), "[C13.w.rows] the reply after the error is shifted");
+        cases += 2;
     }
     let (_r, m) = one(b"USE denied");
     assert!(matches!(parse_err(&m[1].2), Some(Resp::Err { code: 1044, msg, .. }) if msg == b"nope"), "[C13.w.init] init error not delivered");
